@@ -26,4 +26,6 @@ def tasks(tier, seed=0):
     out += [task("vf.contracts.fullfront", "ob_fullfront", f"fullfrontend.{m}/protocol", ["C14", "C11"], method=m, tier=tier) for m in ("_get_solver", "_add", "branch", "eval", "simplify")]
     out += [task("vf.contracts.replfront", "ob_replacement", f"replacement.{m}/equiv+inv", ["C14", "C13"], method=m, tier=tier) for m in ("_copy", "_blank_copy")]
     out += [task("vf.contracts.hybrid", "ob_hybrid", f"hybrid.{m}/dispatch+inv", ["C14", "C13"], method=m, tier=tier) for m in ("branch", "blank_copy")]
+    # a method added to a caching layer (a downsize() that empties a set a branch still shares ...) is outside every proved invariant
+    out.append(task("vf.contracts.layers", "ob_method_coverage", "layer.methods/every-mixin-method-accounted-for", ["C11", "C14"]))
     return out + _rtc.rtc_tasks("C14", tier, seed)
